@@ -209,7 +209,16 @@ def validate(trace_module, trace_cfg, trace_path, workdir, tag, jobs=None, shard
     def one(sh):
         out = sh + '.out'
         run_tlc(trace_module, trace_cfg, out, workdir, workers=1, env_extra={'TRACE': sh}, timeout=timeout, xmx='3g')
-        return sh, parse_trace_output(out)
+        res = parse_trace_output(out)
+        if res[4] == ['validator did not finish (no DONE line)']:
+            # the JVM died without a TLC error (killed under memory pressure on a loaded machine): one retry, verdicts of the first attempt are kept
+            log('[%s] validator process for %s ended without result; retrying once' % (tag, os.path.basename(sh)))
+            time.sleep(5)
+            run_tlc(trace_module, trace_cfg, out, workdir, workers=1, env_extra={'TRACE': sh}, timeout=timeout, xmx='3g')
+            res2 = parse_trace_output(out)
+            if res2[3] is not None:
+                res = res2
+        return sh, res
 
     verdicts, drifts, notes, errors = [], [], [], []
     done = 0
@@ -271,6 +280,13 @@ def run_stage(stage, workdir, seed, tier, result):
         run_tlc(module, cfg, out, workdir, workers=1 if stage.sim else stage.mc_workers, xmx=stage.mc_xmx, simulate=stage.sim, seed=seed,
                 timeout=1800 if tier == 'quick' else 10800)
         states, trans, scripts, errors = parse_mc_output(out)
+        if errors == ['TLC did not complete']:
+            # the JVM ended without a TLC error (killed under memory pressure on a loaded machine): one retry
+            log('[%s] model checker ended without result; retrying once' % tag)
+            time.sleep(5)
+            run_tlc(module, cfg, out, workdir, workers=1 if stage.sim else stage.mc_workers, xmx=stage.mc_xmx, simulate=stage.sim, seed=seed,
+                    timeout=1800 if tier == 'quick' else 10800)
+            states, trans, scripts, errors = parse_mc_output(out)
         if errors:
             raise ToolError('model checking %s/%s: %s' % (module, cfg, errors[0]))
         os.remove(out)
